@@ -53,8 +53,8 @@ class FlushSyncMachine(Machine):
         return []
 
 
-def run(ctx):
-    chk = Check('C06', ctx)
+def run(ctx, host=None):
+    chk = host.sub('C06') if host is not None else Check('C06', ctx)
     prog, K = ctx.prog, ctx.kinds
     R0 = chk.rule('C06.R0', 'safe_flush_to_disk: flush then fsync(fileno) on every path, per use_fullsync binding and platform model', 4)
     R1 = chk.rule('C06.R1', 'do_fsync defaults to True and is forwarded unchanged', 8)
